@@ -291,7 +291,25 @@ def replay(ctx, path):
         e3nn.set_optimization_defaults(jit_script_fx=False)
         c = d["config"]
         cfg = F.LConfig(c["name"], c["inn"], c["out"], c["ins"], c["path_normalization"], c["biases"], c["f_in"], c["f_out"], c["shared"], c["optimize"])
-        lin = cfg.build(o3)
+        r = attempt(lambda: cfg.build(o3))
+        if key == "Linear/constructor-raises" or r[0] != "ok":
+            print(json.dumps({"key": key, "constructor": [r[0], str(r[1])[:300]]}))
+            return 1 if r[0] != "ok" else 0
+        lin = r[1]
+        if key == "Linear/bias-on-non-even-scalar":
+            prob = bias_oracle(cfg, lin)
+            print(json.dumps({"key": key, "problems": prob}, default=str))
+            return 1 if prob else 0
+        if key == "Linear/equivariance":
+            import torch
+            R, x, w, b = (torch.tensor(d[k], dtype=torch.float64) for k in ("R", "x", "w", "b"))
+            Din, Dout = lin.irreps_in.D_from_matrix(R).to(torch.float64), lin.irreps_out.D_from_matrix(R).to(torch.float64)
+            err = float((lin(x @ Din.T, w, b) - lin(x, w, b) @ Dout.T).abs().max())
+            print(json.dumps({"key": key, "error": err}))
+            return 1 if err > EQ_TOL * (1 + float(lin(x, w, b).abs().max())) else 0
+        if "expected" not in d or not isinstance(d["expected"], list):
+            print("replay: nothing to re-execute for", key)
+            return 2
         got, _ = real_eval(cfg, lin, d.get("B", F.B), d.get("input_seed", 1))
         print(json.dumps({"key": key, "got": got, "expected": d.get("expected")}))
         return 0 if vec_close(got, d.get("expected", [])) else 1
